@@ -427,6 +427,59 @@ func rulesGoString(c *Ctx, r *Report, f *ssa.Function) {
 			}
 		}
 	}
+	// the symbol formatter: "Gap" for the gap symbol, Go's own %q quoting of the byte otherwise
+	var cog *ssa.Function
+	for _, fc := range fmtCallsIn(f) {
+		if len(fc.args) == 3 {
+			if cl, ok := fc.args[0].(*ssa.Call); ok {
+				if g := cl.Call.StaticCallee(); g != nil && c.inModule(g) && len(g.Params) == 1 {
+					cog = g
+				}
+			}
+		}
+	}
+	if cog == nil {
+		r.undecided("GS", where, "symbol formatter", c.pos(f.Pos()), "the function that formats a symbol for the listing was not found")
+	} else {
+		r.analysed(fname(cog))
+		cs := newSymb(cog)
+		okGap, okQuote, nCases := false, false, 0
+		var odd []string
+		for _, rc := range returnCases(cs, cog) {
+			nCases++
+			v := rc.vals[0]
+			if str, ok := constStr(v); ok {
+				if str == "Gap" && strings.Contains(rc.guard, "(255 == P0)") && !strings.Contains(rc.guard, "!(255 == P0)") {
+					okGap = true
+				} else {
+					odd = append(odd, fmt.Sprintf("%q under %s", str, rc.guard))
+				}
+				continue
+			}
+			isQ := false
+			if cl, ok := v.(*ssa.Call); ok && fnIs(cl.Call.StaticCallee(), "fmt", "Sprintf") {
+				if fs, ok := constStr(cl.Call.Args[0]); ok && fs == "%q" {
+					args := orderedVarargs(cl.Call.Args[1:])
+					if len(args) == 1 && args[0] == ssa.Value(cog.Params[0]) {
+						isQ = true
+					}
+				}
+			}
+			if cl, ok := v.(*ssa.Call); ok && (fnIs(cl.Call.StaticCallee(), "strconv", "QuoteRune") || fnIs(cl.Call.StaticCallee(), "strconv", "QuoteRuneToASCII")) {
+				if cv, ok := cl.Call.Args[0].(*ssa.Convert); ok && cv.X == ssa.Value(cog.Params[0]) {
+					isQ = true // the same rendering as %q of an integer
+				}
+			}
+			if isQ && strings.Contains(rc.guard, "!(255 == P0)") && strings.Count(rc.guard, "&&") == 0 {
+				okQuote = true
+			} else {
+				odd = append(odd, cs.expr(v).String()+" under "+rc.guard)
+			}
+		}
+		r.check(okGap && okQuote && len(odd) == 0, "GS", fname(cog), "symbol formatter", c.pos(cog.Pos()),
+			"the symbol is written as the identifier Gap for the gap byte and as fmt's %q rendering of the byte for every other value: a Go character literal that denotes the same byte",
+			fmt.Sprintf("the symbol formatter is not {Gap for 255, Sprintf(\"%%q\", c) for every other byte} (cases: %d, others: %v): some byte is not written as a Go literal of itself (e.g. a quote or backslash written unescaped)", nCases, odd))
+	}
 	r.check(okLine, "GS", where, "line format", c.pos(f.Pos()), "each line is {charOrGap(k[0]),charOrGap(k[1])}:m.Get(k[0],k[1]) with %v for one sorted key k", "the line is not \"{%s,%s}:%v,\\n\" of charOrGap(k[0]), charOrGap(k[1]), m.Get(k[0], k[1]) for the same sorted key")
 }
 
